@@ -52,6 +52,13 @@ API (everything else is private)
   ``.extra_handler``          optional ``handler(line)`` consulted first; return ``NotImplemented`` to fall
                               through (C09: ATTACHSTREAM, SETCONF __LeaveStreamsUnattached)
 
+Opt-in ``EXTENDCIRCUIT 0`` support (C08 ``q_build``; off unless ``Session(answer_extend=True)``):
+``World.extend_command(line, pick, refuse)`` launches a circuit (``announced=False``, ``reply_pending=True``) and
+returns ``(reply, CircuitM|None)``; the ``c_announce`` op emits its LAUNCHED event; the reply is held like the
+CLOSE* replies (``Session.held`` / ``.held_info`` / ``.last_acked`` / ``.extend_log`` / ``.extend_pick`` /
+``.extend_refuse``).  A circuit whose reply is still withheld is never reported CLOSED/FAILED; an unannounced
+circuit takes part in no other op.
+
 Extra op for C09 (not in ``OPS``/``DEFAULT_WEIGHTS``): ``s_controller_wait`` (tor >= 0.4.5 with
 __LeaveStreamsUnattached=1 prints ``STREAM n CONTROLLER_WAIT 0 target`` for an unattached stream).
 To make tor attach stream ``s`` to circuit ``c`` (after an ATTACHSTREAM) use the ``s_sent`` op with the
@@ -190,6 +197,10 @@ class CircuitM(object):
         self.rend_query = None
         self.ever_attached = False
         self.close_requested = False
+        # opt-in (World.extend_command): a circuit launched by EXTENDCIRCUIT 0 is not "announced" until its
+        # LAUNCHED event was emitted (op c_announce) and cannot die while the 250 EXTENDED reply is withheld
+        self.announced = True
+        self.reply_pending = False
         # client view
         self.status = None               # last reported CircStatus
         self.kw = {}                     # keyword arguments of the last report
@@ -294,7 +305,7 @@ class World(object):
         return seq[x % len(seq)] if seq else None
 
     def _circ_list(self, pred):
-        return [c for c in (self.circuits[k] for k in sorted(self.circuits)) if pred(c)]
+        return [c for c in (self.circuits[k] for k in sorted(self.circuits)) if c.announced and pred(c)]
 
     def _stream_list(self, pred):
         return [s for s in (self.streams[k] for k in sorted(self.streams)) if pred(s)]
@@ -505,7 +516,7 @@ class World(object):
         return self._circ_report(circ, "BUILT")
 
     def _op_c_close(self, a, b, c):
-        cand = self._circ_list(lambda x: True)
+        cand = self._circ_list(lambda x: not x.reply_pending)
         if b % 3 != 2:       # prefer one whose close was requested / that carries streams
             pref = [x for x in cand if x.close_requested or
                     any(s.circ is x for s in self.streams.values())]
@@ -693,12 +704,73 @@ class World(object):
     def close_step_for(self, m):
         """The step record that makes tor report live object ``m`` (CircuitM/StreamM) gone next."""
         if isinstance(m, CircuitM):
-            cand = self._circ_list(lambda x: True)
+            cand = self._circ_list(lambda x: not x.reply_pending)
             pref = [x for x in cand if x.close_requested or any(s.circ is x for s in self.streams.values())]
             return ["c_close", (pref or cand).index(m), 0, 0] if m in (pref or cand) else None
         cand = self._stream_list(lambda x: True)
         pref = [x for x in cand if x.doomed or x.close_requested]
         return ["s_close", (pref or cand).index(m), 0, 0] if m in (pref or cand) else None
+
+    # ---------------------------------------------------------------- EXTENDCIRCUIT 0 (opt-in)
+    def extend_command(self, line, pick=0, refuse=False):
+        """Reference handling of ``EXTENDCIRCUIT 0 [fp,fp,...] [purpose=general|controller]``
+        (handle_control_extendcircuit).  Returns ``(reply, CircuitM|None)``.  On success a circuit exists in
+        the world with ``announced=False`` (its LAUNCHED event is emitted by the ``c_announce`` op - tor prints it
+        before the reply when it picks the path itself and after the reply for an explicit path, and queued
+        events/replies may be flushed in either order) and ``reply_pending=True`` until the caller clears it
+        when the reply is delivered (``Session.ack`` does).  ``refuse`` = tor cannot start a circuit now (551)."""
+        words = line.split()
+        if len(words) < 2 or words[1] != "0":
+            return wire.err(552, 'Unknown circuit "%s"' % (words[1] if len(words) > 1 else "")), None
+        path = None
+        purpose = "GENERAL"
+        for wd in words[2:]:
+            if wd.lower().startswith("purpose="):
+                p = wd.split("=", 1)[1].lower()
+                if p not in ("general", "controller"):
+                    return wire.err(552, 'Unknown purpose "%s"' % p), None
+                purpose = p.upper()
+            elif path is None:
+                path = []
+                for name in wd.split(","):
+                    fp = name.lstrip("$").split("~")[0].split("=")[0].upper()
+                    hit = [r.idx for r in RELAYS if r.fp == fp and r.in_consensus]
+                    if not hit:
+                        return wire.err(552, 'No such router "%s"' % name), None
+                    path.append(hit[0])
+            else:
+                return wire.err(512, "Too many arguments to EXTENDCIRCUIT"), None
+        busy = set(self.circuits)
+        busy.update(s.circ.id for s in self.streams.values() if s.doomed)
+        busy.update(z.circ.id for z in self.zombies if z.circ is not None)
+        cid = self._pick([i for i in CIRC_IDS if i not in busy], pick)
+        if refuse or cid is None or len(self.circuits) >= MAX_LIVE:
+            return wire.err(551, "Couldn't start circuit"), None
+        circ = CircuitM(cid, self._next_inc())
+        if path is None:
+            n_cons = len([r for r in RELAYS if r.in_consensus])          # 8: strides 1,3,5,7 are coprime
+            stride = [1, 3, 5, 7][(pick // n_cons) % 4]
+            circ.plan = [(pick + k * stride) % n_cons for k in range(3)]
+            circ.build_flags = ["NEED_CAPACITY"]                          # circuit_launch(.., CIRCLAUNCH_NEED_CAPACITY)
+        else:
+            circ.plan = list(path)
+            if len(path) == 1:
+                circ.build_flags = ["ONEHOP_TUNNEL"]
+        circ.purpose = purpose
+        circ.announced = False
+        circ.reply_pending = True
+        self.circuits[cid] = circ
+        self.all_circuits.append(circ)
+        return wire.ok("EXTENDED %d" % cid), circ
+
+    def _op_c_announce(self, a, b, c):
+        """Extra op (not in DEFAULT_WEIGHTS): the LAUNCHED event of a circuit created by extend_command."""
+        cand = [x for x in (self.circuits[k] for k in sorted(self.circuits)) if not x.announced]
+        circ = self._pick(cand, a)
+        if circ is None:
+            return None
+        circ.announced = True
+        return self._circ_report(circ, "LAUNCHED")
 
     # ---------------------------------------------------------------- commands
     def close_command(self, line):
@@ -747,11 +819,17 @@ class BootFailed(Exception):
 
 
 class Session(object):
-    def __init__(self, world, before_connect=None, hold_acks=True, extra_handler=None):
+    def __init__(self, world, before_connect=None, hold_acks=True, extra_handler=None, answer_extend=False):
         from txtorcon import TorState
         self.world = world
         self.hold_acks = hold_acks
         self.held = []
+        self.held_info = []             # parallel to held: ("close", index into close_lines) | ("extend", index into extend_log)
+        self.last_acked = None          # held_info entry of the reply ack() sent last
+        self.answer_extend = answer_extend      # opt-in: answer EXTENDCIRCUIT 0 ... from the world
+        self.extend_pick = 0            # id / default-path selector for the next EXTENDCIRCUIT
+        self.extend_refuse = False      # tor answers the next EXTENDCIRCUIT with 551
+        self.extend_log = []            # [line, reply, CircuitM|None] per EXTENDCIRCUIT received
         self.extra_handler = extra_handler
         self.subscribed = set()
         self.close_lines = []           # CLOSECIRCUIT/CLOSESTREAM lines received, in order
@@ -806,7 +884,18 @@ class Session(object):
             self.close_replies.append(reply)
             if self.hold_acks:
                 self.held.append(reply)
+                self.held_info.append(("close", len(self.close_lines) - 1))
                 return None
+            return reply
+        if self.answer_extend and line.startswith("EXTENDCIRCUIT "):
+            reply, circ = self.world.extend_command(line, pick=self.extend_pick, refuse=self.extend_refuse)
+            self.extend_log.append([line, reply, circ])
+            if self.hold_acks:
+                self.held.append(reply)
+                self.held_info.append(("extend", len(self.extend_log) - 1))
+                return None
+            if circ is not None:
+                circ.reply_pending = False
             return reply
         return NotImplemented
 
@@ -839,5 +928,10 @@ class Session(object):
         if not self.held:
             return None
         reply = self.held.pop(0)
+        self.last_acked = self.held_info.pop(0) if self.held_info else None
+        if self.last_acked is not None and self.last_acked[0] == "extend":
+            circ = self.extend_log[self.last_acked[1]][2]
+            if circ is not None:
+                circ.reply_pending = False
         self.pipe.inject(wire.encode_reply(reply))
         return reply
